@@ -370,7 +370,51 @@ def check_reverse_edges(ctx, rep, f):
                 s=s, a=a, t=t, k=', '.join(e.key), v=e.val, flt=' under an extra filter' if e.filters else ''))
 
 
+def _check_no_prefix_model(ctx, rep, f):
+    """dfa_no_prefix, evaluated (analyser's own evaluator) on a three-state DFA over two letters with every choice of the
+    accepting set: the result keeps Q, Sigma, q0 and F, and its transitions are exactly the transitions of D that leave a
+    non-accepting state, each to the singleton of its target.  The construction treats every transition on its own and
+    decides by `source in F`, so the model covers both outcomes for every transition.  Returns True when decided."""
+    import itertools
+    from ..miniexec import Interp, Obj, Raised
+    from ..abseval import Unsupported as U2
+    classes = {'NFA': lambda Q, Sigma, delta, q0, F, epsilon=None, *rest, **kw: Obj('NFA', Q=Q, Sigma=Sigma, delta=delta, q0=q0, F=F, epsilon=epsilon)}
+    trans = {('p', 'a'): 'q', ('p', 'b'): 'r', ('q', 'a'): 'q', ('q', 'b'): 'p', ('r', 'a'): 'r', ('r', 'b'): 'q'}
+    cases = 0
+    try:
+        for k in range(4):
+            for Fs in itertools.combinations(['p', 'q', 'r'], k):
+                D = Obj('DFA', Q={'p', 'q', 'r'}, Sigma={'a', 'b'}, delta=dict(trans), q0='p', F=set(Fs))
+                try:
+                    N = Interp(ctx, classes=classes, stubs={'fresh_epsilon': lambda it, args, kw: 'EPS'}).call(f, [D])
+                except Raised as ex:
+                    rep.violates(RULE + '.M2', f, 'def ' + f.name, 'the construction raises {} on a three-state DFA with F = {}'.format(ex.name, sorted(Fs)))
+                    return True
+                if not isinstance(N, Obj) or N._cls != 'NFA':
+                    raise U2('result is not an NFA')
+                cases += 1
+                got = {k0: set(v0) for k0, v0 in dict(N._f['delta']).items() if v0}
+                want = {(s, a): {t} for (s, a), t in trans.items() if s not in Fs}
+                bad = None
+                if got != want:
+                    diff = sorted(set(got.items() if False else [k0 for k0 in set(got) | set(want) if got.get(k0) != want.get(k0)]))
+                    k0 = diff[0]
+                    bad = 'the transition from {} on {} is {} in the result, the prefix-free restriction has {} (F = {})'.format(k0[0], k0[1], sorted(got.get(k0, [])) or 'absent', sorted(want.get(k0, [])) or 'none', sorted(Fs))
+                elif set(N._f['Q']) != D._f['Q'] or set(N._f['Sigma']) != D._f['Sigma'] or N._f['q0'] != 'p' or set(N._f['F']) != set(Fs):
+                    bad = 'states, alphabet, initial state or accepting set of the result differ from those of the DFA (F = {})'.format(sorted(Fs))
+                if bad:
+                    rep.violates(RULE + '.M2', f, 'def ' + f.name, bad + ': the result does not accept exactly the words of L(D) without a proper prefix in L(D)')
+                    return True
+    except (U2, RecursionError) as e:
+        rep.note('{}: finite-model evaluation not applicable ({})'.format(f.short, e))
+        return False
+    rep.holds(RULE + '.M2', f, 'def ' + f.name, 'on a three-state DFA with each of its {} accepting sets the result keeps exactly the transitions that leave a non-accepting state, and Q, Sigma, q0, F'.format(cases))
+    return True
+
+
 def check_no_prefix_edges(ctx, rep, f):
+    if _check_no_prefix_model(ctx, rep, f):
+        return
     edges = extract_edge_loops(ctx, f)
     if not edges:
         rep.undecided(RULE + '.M2', f, 'def ' + f.name, 'edge loop over D.delta.items() not found')
